@@ -73,6 +73,38 @@ theorem decor_invariant (style : Style) (d : Decor) (hd : d.ok) (f : Forest) (ha
 theorem decor_invariant_holds : decor_invariant_statement :=
   fun style d f hd ha => decor_invariant style d hd f ha
 
+/-! ### format descriptions that name their escape characters -/
+
+/-- a description `{*} = # q` with ONE escape character `q` makes `q` the only quote character: the
+    default `"` and `'` are ordinary value characters then -/
+theorem format_one_escape (q : UInt8) (hq : Parse.isspace q = false) :
+    (parseFormat (some (str "{*} = # " ++ [q]))).1.esc = [q, 0, 0]
+    ∧ ∀ c, (parseFormat (some (str "{*} = # " ++ [q]))).1.isEscape c = (c != 0 && c == q) := by
+  have h : (parseFormat (some (str "{*} = # " ++ [q]))).1.esc = [q, 0, 0] := by
+    have : str "{*} = # " ++ [q] = [123, 42, 125, 32, 61, 32, 35, 32, q] := by
+      have : str "{*} = # " = [123, 42, 125, 32, 61, 32, 35, 32] := by decide +kernel
+      rw [this]; rfl
+    rw [this]
+    have hw : List.takeWhile (fun c => !Parse.isspace c) [q] = [q] := by
+      simp [List.takeWhile, hq]
+    have hsp : Parse.isspace 32 = true := by decide
+    have h35 : Parse.isspace 35 = false := by decide
+    simp only [parseFormat, takeWord, List.dropWhile, List.takeWhile, hsp, h35, hq, hw, Bool.not_true,
+      Bool.not_false, List.length_cons, List.length_nil, List.take]
+    have hd : List.dropWhile Parse.isspace [32, q] = [q] := by
+      simp [List.dropWhile, hsp, hq]
+    have hle : (0 + 1 ≤ 4) := by decide
+    simp only [hle, ↓reduceIte, hd, hw]
+    simp
+  refine ⟨h, ?_⟩
+  intro c
+  unfold Format.isEscape
+  rw [h]
+  by_cases h0 : c = 0
+  · subst h0; simp
+  · have h00 : (c == 0) = false := by simp [h0]
+    simp only [List.contains_cons, List.contains_nil, h00, Bool.or_false]
+
 /-! ### known finding `dot-in-name`: outside `admissible`, inside the name flags -/
 
 /-- **Counterexample** (known finding `c_ne_s:node:dot-in-name`): a name that contains the path
